@@ -387,6 +387,28 @@ func files(args []string) {
 			dist[label+":"+obs]++
 		}
 	}
+	// directed: multi-byte characters in front of the SEC columns, company identification ending in "IAT"
+	// (bytes 50..53 of the header read "IAT"; the detection counts characters since the fix 272ca522),
+	// and the same with an ASCII name (bytes = characters)
+	for _, tc := range [][2]string{{"Café Ñandú SA", "1234567IAT"}, {"Cafe Nandu SA", "1234567IAT"}, {"É", "12345678IA"}, {"IATCOR", "123456789"}} {
+		for _, sec := range []string{ach.PPD, ach.ATX, ach.CCD} {
+			f := gen.FileOfSEC(r, sec, gen.Opts{MinBatches: 1, MaxBatches: 2, NonASCII: true})
+			b := f.Batches[0]
+			b.GetHeader().CompanyName = tc[0]
+			b.GetHeader().CompanyIdentification = tc[1]
+			if b.Create() != nil || f.Create() != nil || f.Validate() != nil {
+				dist["directed:not-valid"]++
+				continue
+			}
+			text, err := gen.Text(f, false)
+			if err != nil {
+				dist["directed:writer-error"]++
+				continue
+			}
+			// a company named IATCOR is taken for an IAT header, whose validation then fails: compare with validation skipped
+			emit(text, tc[0] == "IATCOR", "directed:company")
+		}
+	}
 	secs := append(gen.AllSECs(), ach.IAT, ach.ADV)
 	for _, sec := range secs {
 		for _, ops := range optSets() {
